@@ -1,12 +1,35 @@
-"""C14 abstract interpreter over emitted code objects, executed BY THE TARGET INTERPRETER (3.7+).
-For every code object (recursively) of every .pyc in the list: explores all reachable
-(offset, stack depth) states with the interpreter's own dis.stack_effect and checks
-  - no negative depth, max reachable depth <= co_stacksize,
-  - every jump / handler target is an instruction boundary inside the code; 3.11 exception-table
-    ranges are sorted, disjoint, on instruction boundaries, and never promise more stack than there is,
-  - every const/name/local/free index in range,
-  - every instruction's line inside 1..nlines.
-argv: <list.json> <out.jsonl>;  list: [{"id", "pyc", "nlines"}]
+"""C14 abstract interpreter over code objects, executed BY THE TARGET INTERPRETER (3.7 .. 3.11).
+
+For every code object (recursively) of every .pyc in the list it explores ALL reachable abstract
+states of the code object's control-flow graph and checks the four clauses of the property:
+
+  stack   every reachable operand-stack depth is >= 0 and <= co_stacksize.
+          3.9-3.11: state = (offset, depth); edges weighted by the interpreter's own
+          dis.stack_effect(op, arg, jump=True/False); 3.11 exception-table handlers are edges from
+          every protected state (depth cut to the entry's depth, + lasti + exception).
+          3.7, 3.8: the effect of END_FINALLY / WITH_CLEANUP_* / POP_FINALLY depends on WHAT is on
+          the stack (None/NULL, a return address, an unwinder status or six exception slots) and
+          dis.stack_effect only gives an "as if" estimate (3.7: no jump= at all), so
+          state = (offset, tagged stack, block stack) with ceval.c's semantics written out for the
+          block opcodes only (SETUP_*, POP_BLOCK, POP_EXCEPT, BEGIN/END/POP/CALL_FINALLY,
+          WITH_CLEANUP_*, END_ASYNC_FOR, BREAK_LOOP, CONTINUE_LOOP, RETURN_VALUE through finally,
+          FOR_ITER, JUMP_IF_x_OR_POP); every other opcode is dis.stack_effect.
+          A state whose depth is outside 0..co_stacksize is reported and not expanded, which makes
+          the state space finite: at most (#instructions x (co_stacksize+1)) depth states.
+  jumps   every jump target (and 3.11 handler target / range bound) is the offset of an instruction
+          inside the code, and not the tail of an instruction whose EXTENDED_ARG prefix is non-zero.
+  index   every const / name / local / free index is in range.
+  lines   (3.10+) the line table covers the code exactly; every line an instruction is mapped to is
+          inside 1..nlines (3.11: the line 0 CPython itself gives to a module's leading RESUME is allowed).
+
+A path on which the model meets something it has no semantics for (3.7: END_FINALLY /
+WITH_CLEANUP_* on a slot that is neither None nor an exception nor an unwinder status) is cut and
+counted (`unmodelled`), never reported: the exploration under-approximates there.
+
+argv: <list.json> <out.jsonl>
+  list: [{"id", "pyc", "nlines", "nlines_inlined"?}] -> one result line per item
+        [{"id", "selftest": [paths of .py files]}] -> compile() each file with THIS interpreter and
+                                                    check it the same way (guards against false alarms)
 """
 import dis
 import json
@@ -15,39 +38,49 @@ import sys
 import types
 
 V = sys.version_info[:2]
-UNCOND = {"JUMP_FORWARD", "JUMP_ABSOLUTE", "JUMP_BACKWARD", "JUMP_BACKWARD_NO_INTERRUPT", "JUMP_NO_INTERRUPT"}
-TERMINAL = {"RETURN_VALUE", "RAISE_VARARGS", "RERAISE", "RETURN_CONST"}
-# 3.7 has no jump= argument; effects of its jump-dependent opcodes per CPython 3.7 compile.c (stackdepth_walk)
-EFFECT37 = {"FOR_ITER": (1, -1), "JUMP_IF_TRUE_OR_POP": (-1, 0), "JUMP_IF_FALSE_OR_POP": (-1, 0)}
-BLOCKY37 = {"SETUP_WITH", "SETUP_FINALLY", "SETUP_EXCEPT", "SETUP_ASYNC_WITH", "SETUP_LOOP_X"}
+NO_FALL = {"JUMP_FORWARD", "JUMP_ABSOLUTE", "JUMP_BACKWARD", "JUMP_BACKWARD_NO_INTERRUPT", "RETURN_VALUE", "RAISE_VARARGS", "RERAISE",
+           "BREAK_LOOP", "CONTINUE_LOOP"}
+EXT = dis.opmap["EXTENDED_ARG"]
+JUMPS = set(dis.hasjrel) | set(dis.hasjabs)
+GENLIKE = 0x20 | 0x80 | 0x200  # CO_GENERATOR | CO_COROUTINE | CO_ASYNC_GENERATOR
 
 
-def effects(ins):
-    """(fallthrough effect or None, jump effect or None)"""
-    op, arg, name = ins.opcode, ins.arg, ins.opname
-    is_jump = op in dis.hasjrel or op in dis.hasjabs
-    if name == "EXTENDED_ARG":
-        # a prefix of the next instruction (3.7's stack_effect rejects it); no stack effect
-        return 0, None
+class Sink:
+    """violations of one .pyc, de-duplicated per (kind, code object): first detail + count"""
+
+    def __init__(self):
+        self.items = {}
+        self.order = []
+
+    def add(self, kind, code, detail, **extra):
+        k = (kind, code)
+        if k in self.items:
+            self.items[k]["count"] += 1
+            return
+        d = {"kind": kind, "code": code, "detail": detail, "count": 1}
+        d.update(extra)
+        self.items[k] = d
+        self.order.append(k)
+
+    def list(self):
+        return [self.items[k] for k in self.order]
+
+
+def stack_effect(ins, jump):
+    op, arg = ins.opcode, ins.arg
+    if op == EXT:
+        return 0
     if V >= (3, 8):
-        fall = dis.stack_effect(op, arg, jump=False) if op >= dis.HAVE_ARGUMENT else dis.stack_effect(op)
-        jump = dis.stack_effect(op, arg, jump=True) if is_jump else None
-    else:
-        e = dis.stack_effect(op, arg) if op >= dis.HAVE_ARGUMENT else dis.stack_effect(op)
-        if name in EFFECT37:
-            fall, jump = EFFECT37[name]
-        else:
-            fall, jump = e, (e if is_jump else None)
-    if name in UNCOND or name in TERMINAL:
-        fall = None
-    return fall, jump
+        if op < dis.HAVE_ARGUMENT:
+            return dis.stack_effect(op, jump=jump)
+        return dis.stack_effect(op, arg, jump=jump)
+    return dis.stack_effect(op, arg) if op >= dis.HAVE_ARGUMENT else dis.stack_effect(op)
 
 
 def parse_exception_table(co):
-    """3.11+: [(start, end, target, depth, lasti)] in byte offsets"""
+    """3.11: [(start, end, target, depth, lasti)] in byte offsets"""
     out = []
-    tab = getattr(co, "co_exceptiontable", b"")
-    it = iter(tab)
+    it = iter(getattr(co, "co_exceptiontable", b""))
 
     def varint():
         b = next(it)
@@ -69,140 +102,521 @@ def parse_exception_table(co):
     return out
 
 
-def line_of_instructions(co):
-    """offset -> line (or None)"""
+def line_map(co, size):
+    """-> ({offset: line or None}, covered_exactly: bool or None)"""
     res = {}
     if hasattr(co, "co_lines"):
+        pos = 0
+        exact = True
         for start, end, line in co.co_lines():
-            for off in range(start, end, 2):
+            if start != pos or end < start:
+                exact = False
+            pos = max(pos, end)
+            for off in range(start, min(end, size), 2):
                 res[off] = line
-    else:
-        starts = list(dis.findlinestarts(co))
-        cur = None
-        si = 0
-        for off in range(0, len(co.co_code), 2):
-            while si < len(starts) and starts[si][0] <= off:
-                cur = starts[si][1]
-                si += 1
-            res[off] = cur
-    return res
+        if pos != size:
+            exact = False
+        return res, exact
+    starts = list(dis.findlinestarts(co))
+    cur = co.co_firstlineno
+    si = 0
+    for off in range(0, size, 2):
+        while si < len(starts) and starts[si][0] <= off:
+            cur = starts[si][1]
+            si += 1
+        res[off] = cur
+    return res, None
 
 
-def check_code(co, nlines, viol, stats):
+def path_of(parent, st, by_off, keep=40):
+    """the discovered path to a state, as 'offset:OPNAME@depth' (only branch points and the last steps are kept)"""
+    chain = []
+    while st is not None:
+        chain.append(st)
+        st = parent.get(st)
+    chain.reverse()
+    out = []
+    for k, s in enumerate(chain):
+        nxt_off = chain[k + 1][0] if k + 1 < len(chain) else None
+        ins = by_off[s[0]]
+        d = s[1] if isinstance(s[1], int) else len(s[1])
+        jumped = nxt_off is not None and ins.opcode in JUMPS and nxt_off == ins.argval
+        if jumped or k >= len(chain) - 6 or k == 0:
+            out.append("%d:%s@%d%s" % (s[0], ins.opname, d, "->%d" % nxt_off if jumped else ""))
+    return out[-keep:]
+
+
+# ------------------------------------------------------------------------------------------------
+# 3.9 - 3.11: states (offset, depth)
+# ------------------------------------------------------------------------------------------------
+def explore_static(co, instrs, by_off, nxt, offsets, sink, stats):
     name = co.co_name
-    try:
-        instrs = list(dis.get_instructions(co))
-    except Exception as e:  # an operand index out of range makes dis itself fail
-        viol.append({"kind": "operand-index-out-of-range", "code": name, "detail": "dis failed: %s: %s" % (type(e).__name__, e)})
-        return
-    offsets = {i.offset for i in instrs}
-    by_off = {i.offset: i for i in instrs}
-    order = [i.offset for i in instrs]
-    nxt = {order[k]: (order[k + 1] if k + 1 < len(order) else None) for k in range(len(order))}
-    size = len(co.co_code)
-    nlocalsplus = len(co.co_varnames) + len(co.co_cellvars) + len(co.co_freevars)
-    # operand ranges
-    for i in instrs:
-        op, arg = i.opcode, i.arg
-        if arg is None:
-            continue
-        if op in dis.hasconst and not (0 <= arg < len(co.co_consts)):
-            viol.append({"kind": "const-index-out-of-range", "code": name, "detail": "%s %d at %d, %d consts" % (i.opname, arg, i.offset, len(co.co_consts))})
-        if op in dis.hasname:
-            idx = arg
-            if V >= (3, 11) and i.opname == "LOAD_GLOBAL":
-                idx = arg >> 1
-            if V >= (3, 12) and i.opname in ("LOAD_ATTR",):
-                idx = arg >> 1
-            if not (0 <= idx < len(co.co_names)):
-                viol.append({"kind": "name-index-out-of-range", "code": name, "detail": "%s %d at %d, %d names" % (i.opname, arg, i.offset, len(co.co_names))})
-        if op in dis.haslocal and not (0 <= arg < max(len(co.co_varnames), nlocalsplus if V >= (3, 11) else 0)):
-            viol.append({"kind": "local-index-out-of-range", "code": name, "detail": "%s %d at %d, %d locals" % (i.opname, arg, i.offset, len(co.co_varnames))})
-        if op in dis.hasfree:
-            lim = nlocalsplus if V >= (3, 11) else len(co.co_cellvars) + len(co.co_freevars)
-            if not (0 <= arg < lim):
-                viol.append({"kind": "free-index-out-of-range", "code": name, "detail": "%s %d at %d, limit %d" % (i.opname, arg, i.offset, lim)})
-        if op in dis.hasjrel or op in dis.hasjabs:
-            t = i.argval
-            if not isinstance(t, int) or t not in offsets or not (0 <= t < size):
-                viol.append({"kind": "jump-target-not-an-instruction", "code": name, "detail": "%s at %d -> %r (code size %d)" % (i.opname, i.offset, t, size)})
-    # line table
-    lines = line_of_instructions(co)
-    bad_lines = set()
-    for i in instrs:
-        ln = lines.get(i.offset)
-        if ln is None:
-            stats["instructions_without_line"] += 1
-        elif not (1 <= ln <= nlines):
-            bad_lines.add(ln)
-    if bad_lines:
-        viol.append({"kind": "line-outside-source", "code": name, "detail": "lines %s, source has %d lines" % (sorted(bad_lines)[:5], nlines), "module_level": name == "<module>"})
-    # stack exploration
+    limit = co.co_stacksize
     handlers = parse_exception_table(co) if V >= (3, 11) else []
-    prev_end = 0
-    for (s, e, target, hdepth, lasti) in handlers:
-        if not (prev_end <= s < e <= size) or s not in offsets or (e not in offsets and e != size):
-            viol.append({"kind": "exception-table-range-invalid", "code": name, "detail": "entry %d..%d after an entry ending at %d (code size %d): ranges must be sorted, disjoint and on instruction boundaries" % (s, e, prev_end, size)})
-        if target not in offsets:
-            viol.append({"kind": "handler-target-not-an-instruction", "code": name, "detail": "entry %d..%d -> %d" % (s, e, target)})
-        prev_end = max(prev_end, e)
-    blocky = V < (3, 8) and any(i.opname in BLOCKY37 for i in instrs)
+    d0 = 1 if (V >= (3, 10) and co.co_flags & GENLIKE) else 0  # the value sent in is on the stack when a generator starts
     seen = set()
-    work = [(0, 0)] if instrs else []
-    maxdepth = 0
+    work = [(0, d0)] if instrs else []
+    parent = {}
     trans = 0
-    cap = 200000
+    maxd = d0
     while work:
         st = work.pop()
         if st in seen:
             continue
         seen.add(st)
-        if len(seen) > cap:
-            viol.append({"kind": "state-space-cap", "code": name, "detail": "more than %d abstract states" % cap})
-            break
         off, depth = st
-        ins = by_off.get(off)
-        if ins is None:
-            continue
-        if depth > maxdepth:
-            maxdepth = depth
-        try:
-            fall, jump = effects(ins)
-        except ValueError as e:
-            viol.append({"kind": "invalid-opcode-or-argument", "code": name, "detail": "%s %r at %d: %s" % (ins.opname, ins.arg, off, e)})
-            continue
+        ins = by_off[off]
         succ = []
-        if fall is not None and nxt[off] is not None:
-            succ.append((nxt[off], depth + fall))
-        elif fall is not None and nxt[off] is None:
-            viol.append({"kind": "falls-off-the-end", "code": name, "detail": "%s at %d" % (ins.opname, off)})
-        if jump is not None and isinstance(ins.argval, int) and ins.argval in offsets:
-            succ.append((ins.argval, depth + jump))
+        try:
+            if ins.opname not in NO_FALL:
+                e = stack_effect(ins, False)
+                if nxt[off] is None:
+                    sink.add("falls-off-the-end", name, "%s at %d is the last instruction and does not leave the frame" % (ins.opname, off))
+                else:
+                    succ.append((nxt[off], depth + e))
+            if ins.opcode in JUMPS:
+                t = ins.argval
+                if isinstance(t, int) and t in offsets:
+                    succ.append((t, depth + stack_effect(ins, True)))
+        except ValueError as e:
+            sink.add("invalid-opcode-or-argument", name, "%s %r at %d: %s" % (ins.opname, ins.arg, off, e))
+            continue
         for (s, e, target, hdepth, lasti) in handlers:
             if s <= off < e and target in offsets:
                 if depth < hdepth:
-                    # the unwinder cuts the stack DOWN to hdepth; fewer values than that means the handler runs on garbage
-                    viol.append({"kind": "handler-depth-exceeds-stack", "code": name, "detail": "at %d depth %d, handler %d expects %d" % (off, depth, target, hdepth)})
+                    sink.add("handler-depth-exceeds-stack", name, "at %d depth %d, handler %d expects %d" % (off, depth, target, hdepth))
                     continue
                 succ.append((target, hdepth + 1 + (1 if lasti else 0)))
         for (o2, d2) in succ:
             trans += 1
             if d2 < 0:
-                viol.append({"kind": "negative-stack-depth", "code": name, "detail": "after %s at %d depth %d" % (ins.opname, off, d2)})
+                sink.add("negative-stack-depth", name, "depth %d after %s at %d (depth before: %d)" % (d2, ins.opname, off, depth), path=path_of(parent, st, by_off))
                 continue
-            if d2 > maxdepth:
-                maxdepth = d2
+            if d2 > limit:
+                sink.add("stacksize-too-small", name, "depth %d > co_stacksize %d after %s at %d" % (d2, limit, ins.opname, off), path=path_of(parent, st, by_off))
+                continue
+            if d2 > maxd:
+                maxd = d2
+            if (o2, d2) not in seen and (o2, d2) not in parent:
+                parent[(o2, d2)] = st
             work.append((o2, d2))
     stats["states"] += len(seen)
     stats["transitions"] += trans
+    stats["max_depth_equals_stacksize"] += 1 if maxd == limit else 0
+
+
+# ------------------------------------------------------------------------------------------------
+# 3.7 / 3.8: states (offset, tagged stack, block stack); ceval.c semantics for the block opcodes
+#   tags: v value | N the constant None | F NULL of BEGIN_FINALLY (3.8) | R<off> return address of CALL_FINALLY (3.8)
+#         x,x,x,x,x,X the six slots pushed when an exception is caught (X on top) | Xd the copy WITH_CLEANUP_START makes
+#         S WHY_SILENCED, Wb / Wr / Wc<off> statuses the 3.7 unwinder pushes for break / return / continue
+#   blocks: (kind, handler, level), kind in LOOP EXCEPT FINALLY EH(=EXCEPT_HANDLER)
+# ------------------------------------------------------------------------------------------------
+PUSHES_NOTHING = {"POP_TOP", "STORE_NAME", "STORE_FAST", "STORE_GLOBAL", "STORE_DEREF", "STORE_ATTR", "STORE_SUBSCR", "DELETE_SUBSCR", "DELETE_ATTR",
+                  "POP_JUMP_IF_TRUE", "POP_JUMP_IF_FALSE", "PRINT_EXPR", "IMPORT_STAR", "SET_ADD", "LIST_APPEND", "MAP_ADD", "STORE_ANNOTATION",
+                  "DELETE_FAST", "DELETE_NAME", "DELETE_GLOBAL", "DELETE_DEREF", "SETUP_ANNOTATIONS"}
+EXC6 = ("x", "x", "x", "x", "x", "X")
+V37 = V == (3, 7)
+
+
+def unwind(stack, blocks, why, cont_target=None):
+    """fast_block_end (3.7) / exception_unwind (3.8) of ceval.c.  -> (offset, stack, blocks) | None (leaves the frame)"""
+    stack = list(stack)
+    blocks = list(blocks)
+    while blocks:
+        b = blocks[-1]
+        if b[0] == "LOOP" and why == "continue":
+            return (cont_target, tuple(stack), tuple(blocks))
+        blocks.pop()
+        del stack[b[2]:]  # UNWIND_BLOCK / UNWIND_EXCEPT_HANDLER both leave b_level values
+        if b[0] == "EH":
+            continue
+        if b[0] == "LOOP" and why == "break":
+            return (b[1], tuple(stack), tuple(blocks))
+        if why == "exception" and b[0] in ("EXCEPT", "FINALLY"):
+            blocks.append(("EH", -1, len(stack)))
+            stack.extend(EXC6)
+            return (b[1], tuple(stack), tuple(blocks))
+        if b[0] == "FINALLY":  # only 3.7 gets here (3.8 unwinds for exceptions only)
+            if why == "return":
+                stack += ["v", "Wr"]
+            elif why == "continue":
+                stack += ["v", "Wc%d" % cont_target]
+            else:
+                stack.append("Wb")
+            return (b[1], tuple(stack), tuple(blocks))
+    return None
+
+
+def step_tagged(co, ins, stack, blocks, nxt_off, offsets, sink, stats):
+    """successors of one 3.7/3.8 state: list of (offset, stack, blocks); may add violations"""
+    name = ins.opname
+    cname = co.co_name
+    off = ins.offset
+    t = ins.argval if ins.opcode in JUMPS else None
+    tgt_ok = isinstance(t, int) and t in offsets
+    out = []
+
+    def cut():
+        stats["unmodelled"] += 1
+        return []
+
+    def need(n):
+        if len(stack) < n:
+            sink.add("negative-stack-depth", cname, "%s at %d needs %d values, stack has %d" % (name, off, n, len(stack)))
+            return False
+        return True
+
+    def fall(st, bl=blocks):
+        if nxt_off is None:
+            sink.add("falls-off-the-end", cname, "%s at %d is the last instruction and does not leave the frame" % (name, off))
+        else:
+            out.append((nxt_off, tuple(st), tuple(bl)))
+
+    def pop_eh(st):
+        """pop the EXCEPT_HANDLER block and unwind to its level -> (stack, blocks) or None"""
+        if not blocks or blocks[-1][0] != "EH":
+            return None
+        return st[:blocks[-1][2]], blocks[:-1]
+
+    if name == "EXTENDED_ARG" or name == "NOP":
+        fall(stack)
+    elif name in ("SETUP_LOOP", "SETUP_EXCEPT", "SETUP_FINALLY"):
+        kind = {"SETUP_LOOP": "LOOP", "SETUP_EXCEPT": "EXCEPT", "SETUP_FINALLY": "FINALLY"}[name]
+        bl = blocks + ((kind, t, len(stack)),)
+        fall(stack, bl)
+        if kind != "LOOP" and tgt_ok:
+            out.append(unwind(stack, bl, "exception"))
+    elif name in ("SETUP_WITH", "SETUP_ASYNC_WITH"):
+        if not need(1):
+            return out
+        st = stack[:-1] + ("v",) if name == "SETUP_WITH" else stack[:-1]  # manager replaced by __exit__ | awaited result popped
+        bl = blocks + (("FINALLY", t, len(st)),)
+        fall(st + ("v",), bl)
+        if tgt_ok:
+            out.append(unwind(st, bl, "exception"))
+    elif name == "POP_BLOCK":
+        if not blocks:
+            sink.add("block-stack-underflow", cname, "POP_BLOCK at %d with an empty block stack" % off)
+            return out
+        b = blocks[-1]
+        fall(stack[:b[2]] if V37 else stack, blocks[:-1])  # 3.7 unwinds the value stack to the block's level, 3.8 does not
+    elif name == "POP_EXCEPT":
+        if not blocks or blocks[-1][0] != "EH":
+            return cut()  # SystemError at run time ("popped block is not an except handler")
+        b = blocks[-1]
+        if V37:
+            if need(b[2] + 3):
+                fall(stack[:b[2]], blocks[:-1])
+        elif need(3):
+            fall(stack[:-3], blocks[:-1])
+    elif name == "BEGIN_FINALLY":
+        fall(stack + ("F",))
+    elif name == "CALL_FINALLY":
+        if tgt_ok:
+            out.append((t, stack + ("R%d" % nxt_off,), blocks))
+    elif name == "END_FINALLY":
+        if not need(1):
+            return out
+        top = stack[-1]
+        if top == ("N" if V37 else "F"):
+            fall(stack[:-1])
+        elif top == "X":
+            pass  # re-raised: the enclosing handlers are reached from their SETUP edges
+        elif top[0] == "R":
+            out.append((int(top[1:]), stack[:-1], blocks))
+        elif top == "S":
+            r = pop_eh(stack[:-1])
+            if r is None:
+                return cut()
+            fall(r[0], r[1])
+        elif top == "Wb":
+            out.append(unwind(stack[:-1], blocks, "break"))
+        elif top == "Wr":
+            out.append(unwind(stack[:-2], blocks, "return"))
+        elif top.startswith("Wc"):
+            out.append(unwind(stack[:-2], blocks, "continue", int(top[2:])))
+        else:
+            return cut()
+    elif name == "POP_FINALLY":
+        k = 1 if ins.arg else 0
+        if not need(1 + k):
+            return out
+        res = stack[len(stack) - k:]
+        st = stack[:len(stack) - k]
+        top = st[-1]
+        if top == "F" or top[0] == "R":
+            fall(st[:-1] + res)
+        elif top == "X":
+            if not blocks or blocks[-1][0] != "EH" or len(st) < 6:
+                return cut()
+            fall(st[:-6] + res, blocks[:-1])
+        else:
+            return cut()
+    elif name == "END_ASYNC_FOR":
+        if not need(7) or stack[-1] != "X":
+            return cut() if len(stack) >= 7 else out
+        r = pop_eh(stack)
+        if r is None or not r[0]:
+            return cut()
+        fall(r[0][:-1], r[1])  # StopAsyncIteration: handler unwound, the iterator popped; anything else is re-raised
+    elif name == "WITH_CLEANUP_START":
+        if not need(2):
+            return out
+        top = stack[-1]
+        if top == ("N" if V37 else "F"):
+            fall(stack[:-2] + (top, "N", "v"))
+        elif top == "Wb":
+            fall(stack[:-2] + ("Wb", "N", "v"))
+        elif top == "Wr" or top.startswith("Wc"):
+            if not need(3):
+                return out
+            fall(stack[:-3] + ("v", top, "N", "v"))
+        elif top == "X":
+            if not need(7):
+                return out
+            if not blocks or blocks[-1][0] != "EH":
+                return cut()
+            b = blocks[-1]
+            # __exit__ (7th) is removed, the three previous-exception slots move down, a NULL fills the gap;
+            # the handler block's level is lowered by one; then exc is duplicated and the result pushed
+            fall(stack[:-7] + EXC6[:-1] + ("x", "X", "Xd", "v"), blocks[:-1] + (("EH", b[1], b[2] - 1),))
+        else:
+            return cut()
+    elif name == "WITH_CLEANUP_FINISH":
+        if not need(2):
+            return out
+        exc = stack[-2]
+        if exc == "N":
+            fall(stack[:-2])
+        elif exc == "Xd":
+            fall(stack[:-2])  # __exit__ returned a false value: END_FINALLY re-raises
+            if V37:
+                fall(stack[:-2] + ("S",))  # true value: WHY_SILENCED, END_FINALLY unwinds the handler block
+            else:
+                r = pop_eh(stack[:-2])  # 3.8 unwinds here and pushes NULL
+                if r is None:
+                    return cut()
+                fall(r[0] + ("F",), r[1])
+        else:
+            return cut()
+    elif name == "BREAK_LOOP":
+        out.append(unwind(stack, blocks, "break"))
+    elif name == "CONTINUE_LOOP":
+        out.append(unwind(stack, blocks, "continue", ins.arg))
+    elif name == "RETURN_VALUE":
+        if need(1) and V37:
+            out.append(unwind(stack[:-1], blocks, "return"))
+    elif name in ("RAISE_VARARGS",):
+        pass
+    elif name == "FOR_ITER":
+        if need(1):
+            fall(stack + ("v",))
+            if tgt_ok:
+                out.append((t, stack[:-1], blocks))
+    elif name in ("JUMP_IF_TRUE_OR_POP", "JUMP_IF_FALSE_OR_POP"):
+        if need(1):
+            fall(stack[:-1])
+            if tgt_ok:
+                out.append((t, stack, blocks))
+    elif name in ("JUMP_FORWARD", "JUMP_ABSOLUTE"):
+        if tgt_ok:
+            out.append((t, stack, blocks))
+    elif name == "ROT_TWO":
+        if need(2):
+            fall(stack[:-2] + (stack[-1], stack[-2]))
+    elif name == "ROT_THREE":
+        if need(3):
+            fall(stack[:-3] + (stack[-1], stack[-3], stack[-2]))
+    elif name == "ROT_FOUR":
+        if need(4):
+            fall(stack[:-4] + (stack[-1], stack[-4], stack[-3], stack[-2]))
+    elif name == "DUP_TOP":
+        if need(1):
+            fall(stack + (stack[-1] if stack[-1] in ("N", "v") else "v",))
+    elif name == "DUP_TOP_TWO":
+        if need(2):
+            fall(stack + ("v", "v"))
+    elif name == "LOAD_CONST":
+        fall(stack + ("N" if ins.argval is None else "v",))
+    else:
+        e = stack_effect(ins, False)  # ValueError is handled by the caller
+        if len(stack) + e < 0:
+            sink.add("negative-stack-depth", cname, "depth %d after %s at %d (depth before: %d)" % (len(stack) + e, name, off, len(stack)))
+            return out
+        if e > 0:
+            st = stack + ("v",) * e
+        else:
+            st = stack[:len(stack) + e] if e else stack
+            if st and name not in PUSHES_NOTHING:
+                st = st[:-1] + ("v",)
+        fall(st)
+        if tgt_ok:  # POP_JUMP_IF_x: same effect on both edges
+            out.append((t, st, blocks))
+    return [s for s in out if s is not None]
+
+
+def explore_tagged(co, instrs, by_off, nxt, offsets, sink, stats):
+    cname = co.co_name
+    limit = co.co_stacksize
+    seen = set()
+    work = [(0, (), ())] if instrs else []
+    parent = {}
+    trans = 0
+    maxd = 0
+    depth_states = set()
+    while work:
+        st = work.pop()
+        if st in seen:
+            continue
+        seen.add(st)
+        off, stack, blocks = st
+        depth_states.add((off, len(stack)))
+        ins = by_off[off]
+        try:
+            succ = step_tagged(co, ins, stack, blocks, nxt[off], offsets, sink, stats)
+        except ValueError as e:
+            sink.add("invalid-opcode-or-argument", cname, "%s %r at %d: %s" % (ins.opname, ins.arg, off, e))
+            continue
+        for s2 in succ:
+            trans += 1
+            if len(s2[1]) > limit:
+                sink.add("stacksize-too-small", cname, "depth %d > co_stacksize %d after %s at %d" % (len(s2[1]), limit, ins.opname, off), path=path_of(parent, st, by_off))
+                continue
+            if len(s2[2]) > 20:  # CO_MAXBLOCKS
+                sink.add("block-stack-overflow", cname, "more than 20 nested blocks after %s at %d" % (ins.opname, off))
+                continue
+            if len(s2[1]) > maxd:
+                maxd = len(s2[1])
+            if s2 not in seen and s2 not in parent:
+                parent[s2] = st
+            work.append(s2)
+    stats["states"] += len(seen)
+    stats["depth_states"] += len(depth_states)
+    stats["transitions"] += trans
+    stats["max_depth_equals_stacksize"] += 1 if maxd == limit else 0
+
+
+# ------------------------------------------------------------------------------------------------
+class WSink:
+    """adds the kind of code object (module / inlined = body of a module the compiler inlined, or below it / nested) to every violation"""
+
+    def __init__(self, sink, where):
+        self.sink, self.where = sink, where
+
+    def add(self, kind, code, detail, **extra):
+        self.sink.add(kind, code, detail, where=self.where, **extra)
+
+
+def check_code(co, nlines, sink, stats, nlines_inlined=None, depth=0, inlined=False):
+    name = co.co_name
+    size = len(co.co_code)
     stats["code_objects"] += 1
-    if blocky:
-        stats["stack_clause_skipped_3_7_blocks"] += 1
-    elif maxdepth > co.co_stacksize:
-        viol.append({"kind": "stacksize-too-small", "code": name, "detail": "reachable depth %d > co_stacksize %d" % (maxdepth, co.co_stacksize)})
+    inlined = inlined or name.startswith("%v_codegen")
+    if inlined and nlines_inlined is not None:
+        nlines = max(nlines, nlines_inlined)
+    top_sink = sink
+    sink = WSink(top_sink, "inlined" if inlined else ("module" if depth == 0 else "nested"))
+    if size % 2:
+        sink.add("code-length-odd", name, "co_code has %d bytes" % size)
+        return
+    try:
+        instrs = list(dis.get_instructions(co))
+    except Exception as e:  # an operand index out of range makes dis itself fail
+        sink.add("operand-index-out-of-range", name, "dis failed: %s: %s" % (type(e).__name__, e))
+        instrs = None
+    if instrs is not None:
+        stats["instructions"] += len(instrs)
+        offsets = {i.offset for i in instrs}
+        by_off = {i.offset: i for i in instrs}
+        order = [i.offset for i in instrs]
+        nxt = {order[k]: (order[k + 1] if k + 1 < len(order) else None) for k in range(len(order))}
+        nlocalsplus = len(co.co_varnames) + len(co.co_cellvars) + len(co.co_freevars)
+        # offsets at which execution would start with a truncated argument: inside an instruction
+        # whose EXTENDED_ARG prefix (the part before that offset) is not all zero
+        tail = {}
+        nonzero = False
+        run = False
+        for i in instrs:
+            if run and nonzero:
+                tail[i.offset] = True
+            if i.opcode == EXT:
+                run = True
+                nonzero = nonzero or bool(co.co_code[i.offset + 1])
+            else:
+                run = False
+                nonzero = False
+        # operand ranges and jump targets: every instruction, reachable or not
+        for i in instrs:
+            op, arg = i.opcode, i.arg
+            if i.opname.startswith("<"):
+                sink.add("invalid-opcode-or-argument", name, "opcode %d at %d is not defined by this interpreter" % (op, i.offset))
+            if arg is None:
+                continue
+            if op in dis.hasconst and not (0 <= arg < len(co.co_consts)):
+                sink.add("const-index-out-of-range", name, "%s %d at %d, %d consts" % (i.opname, arg, i.offset, len(co.co_consts)))
+            if op in dis.hasname:
+                idx = arg >> 1 if (V >= (3, 11) and i.opname == "LOAD_GLOBAL") else arg
+                if not (0 <= idx < len(co.co_names)):
+                    sink.add("name-index-out-of-range", name, "%s %d at %d, %d names" % (i.opname, arg, i.offset, len(co.co_names)))
+            if op in dis.haslocal:
+                lim = nlocalsplus if V >= (3, 11) else len(co.co_varnames)
+                if not (0 <= arg < lim):
+                    sink.add("local-index-out-of-range", name, "%s %d at %d, %d locals" % (i.opname, arg, i.offset, lim))
+            if op in dis.hasfree:
+                lim = nlocalsplus if V >= (3, 11) else len(co.co_cellvars) + len(co.co_freevars)
+                if not (0 <= arg < lim):
+                    sink.add("free-index-out-of-range", name, "%s %d at %d, limit %d" % (i.opname, arg, i.offset, lim))
+            if op in JUMPS:
+                t = i.argval
+                if not isinstance(t, int) or t not in offsets or not (0 <= t < size):
+                    sink.add("jump-target-not-an-instruction", name, "%s at %d -> %r (code size %d)" % (i.opname, i.offset, t, size))
+                elif t in tail:
+                    sink.add("jump-into-extended-instruction", name, "%s at %d -> %d, which follows a non-zero EXTENDED_ARG prefix of the same instruction" % (i.opname, i.offset, t))
+        if V >= (3, 11):
+            prev_end = 0
+            for (s, e, target, hdepth, lasti) in parse_exception_table(co):
+                if not (prev_end <= s < e <= size) or s not in offsets or (e not in offsets and e != size):
+                    sink.add("exception-table-range-invalid", name, "entry %d..%d after an entry ending at %d (code size %d)" % (s, e, prev_end, size))
+                if target not in offsets:
+                    sink.add("handler-target-not-an-instruction", name, "entry %d..%d -> %d" % (s, e, target))
+                prev_end = max(prev_end, e)
+        # line table
+        try:
+            lines, exact = line_map(co, size)
+        except Exception as e:
+            sink.add("line-table-undecodable", name, "%s: %s" % (type(e).__name__, e))
+            lines, exact = {}, None
+        if exact is False:
+            # the table is not in this interpreter's format: the per-instruction lines it yields mean nothing, so the
+            # range clause is not evaluated for this code object (counted)
+            sink.add("line-table-does-not-cover-code", name, "co_lines() does not partition 0..%d: %r" % (size, list(co.co_lines())[:4]))
+            stats["line_range_not_evaluated"] += 1
+        bad = {}
+        for i in ([] if exact is False else instrs):
+            ln = lines.get(i.offset)
+            if ln is None:
+                stats["instructions_without_line"] += 1
+            elif not (1 <= ln <= nlines):
+                if ln == 0 and i.opname == "RESUME" and i.offset == 0 and name == "<module>":
+                    continue  # what CPython 3.11 itself emits
+                bad.setdefault(ln, i.offset)
+        if bad:
+            lo = sorted(bad)
+            sink.add("line-outside-source", name, "instructions mapped to lines %s (first at offset %d); the source has %d lines" % (lo[:6], bad[lo[0]], nlines))
+        # stack exploration
+        if V >= (3, 9):
+            explore_static(co, instrs, by_off, nxt, offsets, sink, stats)
+        else:
+            explore_tagged(co, instrs, by_off, nxt, offsets, sink, stats)
     for c in co.co_consts:
         if isinstance(c, types.CodeType):
-            check_code(c, nlines, viol, stats)
+            check_code(c, nlines, top_sink, stats, nlines_inlined, depth + 1, inlined)
+
+
+def new_stats():
+    return {"states": 0, "depth_states": 0, "transitions": 0, "code_objects": 0, "instructions": 0, "instructions_without_line": 0, "unmodelled": 0,
+            "max_depth_equals_stacksize": 0, "line_range_not_evaluated": 0}
 
 
 def main():
@@ -210,18 +624,34 @@ def main():
         items = json.load(f)
     with open(sys.argv[2], "a") as out:
         for it in items:
-            stats = {"states": 0, "transitions": 0, "code_objects": 0, "instructions_without_line": 0, "stack_clause_skipped_3_7_blocks": 0}
-            viol = []
-            try:
-                with open(it["pyc"], "rb") as f:
-                    data = f.read()
-                co = marshal.loads(data[16:])
-                if not isinstance(co, types.CodeType):
-                    raise ValueError("not a code object")
-                check_code(co, it["nlines"], viol, stats)
-            except Exception as e:
-                viol.append({"kind": "unloadable", "code": "", "detail": "%s: %s" % (type(e).__name__, e)})
-            r = {"id": it["id"], "violations": viol}
+            stats = new_stats()
+            sink = Sink()
+            if "selftest" in it:
+                files = 0
+                for path in it["selftest"]:
+                    try:
+                        with open(path, encoding="utf-8") as f:
+                            src = f.read()
+                        co = compile(src, path, "exec")
+                    except Exception:
+                        continue  # not valid source for this interpreter
+                    files += 1
+                    s1 = Sink()
+                    check_code(co, src.count("\n") + 1, s1, stats)
+                    for v in s1.list():
+                        sink.add(v["kind"], path + ":" + v["code"], v["detail"])
+                stats["files"] = files
+            else:
+                try:
+                    with open(it["pyc"], "rb") as f:
+                        data = f.read()
+                    co = marshal.loads(data[16:])
+                    if not isinstance(co, types.CodeType):
+                        raise ValueError("not a code object")
+                    check_code(co, it["nlines"], sink, stats, it.get("nlines_inlined"))
+                except Exception as e:
+                    sink.add("unloadable", "", "%s: %s" % (type(e).__name__, e))
+            r = {"id": it["id"], "violations": sink.list()}
             r.update(stats)
             out.write(json.dumps(r) + "\n")
 
